@@ -20,7 +20,7 @@ from ..concretize import NUMTYPES, BYTEORDERS, INDEXTYPES, dtype_of
 
 warnings.simplefilter('ignore')
 ATOMS = [(), (2,), (2, 3), (2, 1, 3)]
-SUBS = [[2], [0, 3], [1, 0, 2], [2, 0, 0, 1, 3, 1, 2], [0, 0, 1], [3, 1]]
+SUBS = [[2], [0, 3], [1, 0, 2], [2, 0, 0, 1, 3, 1, 2], [0, 0, 1], [3, 1], [2, 1, 0]]
 PYFAMILY = ['darr', 'numpymemmap']
 
 RUNNER = r'''
@@ -114,7 +114,21 @@ def run(tier, seed):
                 n = ln * (int(np.prod(atom)) if atom else 1)
                 items.append((np.arange(cnt, cnt + n) % 120 + 1).reshape((ln,) + atom).astype(dt))
                 cnt += n
-            ra = darr.asraggedarray(d, items, dtype=dt, indextype=it)
+            # the array gets its content through a history on ONE handle, with code generated in between: what
+            # readcode() returns afterwards is the program for the current content
+            hist = ci % 3
+            if hist == 1 and len(items) >= 2:
+                ra = darr.asraggedarray(d, items[:-1], dtype=dt, indextype=it, accessmode='r+')
+                for lang in langs:
+                    ra.readcode(lang)
+                ra.append(items[-1])
+            elif hist == 2:
+                ra = darr.asraggedarray(d, items + [items[0][:0]], dtype=dt, indextype=it, accessmode='r+')
+                for lang in langs:
+                    ra.readcode(lang)
+                darr.truncate_raggedarray(ra, len(items))
+            else:
+                ra = darr.asraggedarray(d, items, dtype=dt, indextype=it)
             rows = []
             pos = 0
             for ln in lens:
